@@ -235,8 +235,12 @@ def _state_probes(ctx, main, desc, nmax, quick):
                                   case=case, entry=name, kind='state', attr='<raises>', observed=r['hist_err'])
                     continue
                 for attr, what, detail in r['diff'][:3]:
+                    # kind 'state': the attribute exists / is set on one side only, or has another type - no source of randomness
+                    # can do that; kind 'refit_state': same kind of value with another shape (what an estimator whose result is
+                    # not reproducible at all - recorded finding D13, Leiden - also shows)
                     ctx.violation(name, 'attribute %s of the refitted estimator (%s history) differs from a fresh estimator: %s, %s'
-                                  % (attr, plan, what, detail), case=case, entry=name, kind='state', attr=attr, observed=detail)
+                                  % (attr, plan, what, detail), case=case, entry=name,
+                                  kind='refit_state' if what == 'shape' else 'state', attr=attr, observed=detail)
 
 
 def _gnn_validation(ctx, main, nmax, quick):
